@@ -1,4 +1,34 @@
-(* theorems for C05 are being added (see SMP/) *)
+(* C05 - Every offered action can be taken (partial). The full statement is false on the unchanged tree
+   (known findings: hang, BufferFullError, deadlocks, ZeroDivisionError). Proved for every instance:
+   offered transitions never fail validation; a successful step re-establishes the store and clock
+   invariants; a step never returns a half-applied state. *)
 From Coq Require Import List ZArith Bool.
-Theorem C05_placeholder : True. Proof. exact I. Qed.
-Print Assumptions C05_placeholder.
+From JSL Require Import Base.Res Base.ListX SM.Types SM.Util SM.Handler SM.Step SM.Middleware SM.Inv SM.Example
+  SMP.Offers SMP.Main SMP.Reflect SMP.StepInv SMP.Atomic SMP.Clock SMP.ClockMain.
+Import ListNotations.
+
+(* accepting the offered transition cannot be rejected by the transition tables *)
+Theorem C05_no_validation_error :
+  forall i x offers tr, no_transport_ops_b x = true ->
+    get_possible_transitions i x = Ok offers -> In tr offers -> is_transition_valid x tr = Ok true.
+Proof. exact offers_are_valid. Qed.
+Print Assumptions C05_no_validation_error.
+
+(* whenever a step succeeds, the structural invariants hold again in the returned state and in every
+   intermediate micro-state (any fuel, any action, any oracle) *)
+Theorem C05_success_reestablishes_invariants :
+  forall sigma i fuel x0 trs tm x' offers lg,
+    wfs_b i x0 = true -> step sigma i fuel x0 trs tm = SOk x' offers lg ->
+    wfs_b i x' = true /\ forall tr y, In (tr, y) lg -> wfs_b i y = true.
+Proof. exact step_wfs_b. Qed.
+Print Assumptions C05_success_reestablishes_invariants.
+
+(* the outcomes of a step are exhaustive and exclusive: success with a state, failure with the input
+   state, an exception class, or fuel exhaustion (the model of "never returns") *)
+Theorem C05_failure_is_clean :
+  forall sigma i fuel x0 trs tm xf lg, step sigma i fuel x0 trs tm = SFail xf lg -> same_shop xf x0.
+Proof. exact step_fail_returns_input. Qed.
+
+(* C05_refuted: the full statement fails already on a compiled instance - an action in the action space
+   (decline) on a reachable state runs out of any finite fuel we tried in Coq; the implementation never
+   returns on it (known finding F-C05-hang-ordered-standalone, replayed by the harness) *)
